@@ -97,7 +97,7 @@ Section Printer.
   (* addStringIfNotEmpty: nil and the empty string print nothing *)
   Definition pr_kw_str (kw : string) (v : option bytes) : bytes :=
     match v with
-    | Some (_ :: _ as s) => sp :: B kw ++ sp :: quote s
+    | Some ((_ :: _) as s) => sp :: B kw ++ sp :: quote s
     | _ => []
     end.
 
@@ -191,3 +191,91 @@ with tk_body (b : body) : list token :=
   | BC c => tk_cond c
   | BP e => sym_tok "(" :: tk_expr e ++ [sym_tok ")"]
   end.
+
+(* a source: one Tags token holding the printed tag line, or the tokens of the expression *)
+Definition tk_source (tags_line : tagset -> bytes) (s : source) : list token :=
+  match s with
+  | SrcTags t => [Tok TTags (pr_tags tags_line t)]
+  | SrcExpr e => tk_expr e
+  end.
+
+(* cmdCreatePipe (backend/admin.go): the pipe keeps the printed From and Where: as text, and as tokens *)
+Definition pipe_conds_text (quote : bytes -> bytes) (tags_line : tagset -> bytes) (p : pipe) : bytes * bytes :=
+  (pr_osource quote tags_line (pi_from p), pr_oexpr quote (pi_where p)).
+Definition pipe_conds_tokens (tags_line : tagset -> bytes) (p : pipe) : list token * list token :=
+  (match pi_from p with Some s => tk_source tags_line s | None => [] end,
+   match pi_where p with Some e => tk_expr e | None => [] end).
+
+(* ---- the token image of the statement printers ----
+   String tokens carry the unquoted value, Number tokens the decimal text, Tags tokens the braces and the
+   tag line; `[`, `]`, `:` are tokens of the Keyword class. A clause the printer skips has no tokens. *)
+Section StmtTokens.
+  Variable tags_line : tagset -> bytes.
+  Variable fmt_time : Z -> bytes.
+
+  Definition str_tok (s : bytes) : token := Tok TString s.
+  Definition num_tok (z : Z) : token := Tok TNumber (pr_Z z).
+  Definition tk_clause {A : Type} (kw : string) (f : A -> list token) (v : option A) : list token :=
+    match v with Some a => kw_tok kw :: f a | None => [] end.
+
+  Definition tk_range (r : range) : list token :=
+    match r_t2 r with
+    | None => match r_t1 r with Some t1 => [str_tok (fmt_time t1)] | None => [] end
+    | Some t2 => kw_tok "[" :: match r_t1 r with Some t1 => [str_tok (fmt_time t1)] | None => [] end ++
+                 [kw_tok ":"; str_tok (fmt_time t2); kw_tok "]"]
+    end.
+
+  Definition tk_select (s : select) : list token :=
+    kw_tok "SELECT" ::
+    match s_format s with Some ((_ :: _) as f) => [str_tok f] | _ => [] end ++
+    tk_clause "FROM" (tk_source tags_line) (s_source s) ++
+    tk_clause "RANGE" tk_range (s_range s) ++
+    tk_clause "WHERE" tk_expr (s_where s) ++
+    tk_clause "POSITION" (fun p => [str_tok p]) (s_pos s) ++
+    tk_clause "OFFSET" (fun z => [num_tok z]) (s_offset s) ++
+    tk_clause "LIMIT" (fun z => [num_tok z]) (s_limit s).
+
+  Definition tk_pipe (p : pipe) : list token :=
+    kw_tok "PIPE" :: Tok TIdent (pi_name p) ::
+    tk_clause "FROM" (tk_source tags_line) (pi_from p) ++ tk_clause "WHERE" tk_expr (pi_where p).
+
+  Definition tk_describe (d : describe) : list token :=
+    kw_tok "DESCRIBE" ::
+    match d with
+    | DPartition t => [kw_tok "PARTITION"; Tok TTags (pr_tags tags_line t)]
+    | DPipe n => [kw_tok "PIPE"; Tok TIdent n]
+    end.
+
+  Definition tk_osource (s : option source) : list token := match s with Some s => tk_source tags_line s | None => [] end.
+
+  Definition tk_show (s : show) : list token :=
+    kw_tok "SHOW" ::
+    match sh_parts s with
+    | Some p => kw_tok "PARTITIONS" :: tk_osource (pt_source p) ++
+                tk_clause "OFFSET" (fun z => [num_tok z]) (pt_offset p) ++ tk_clause "LIMIT" (fun z => [num_tok z]) (pt_limit p)
+    | None => []
+    end ++
+    match sh_pipes s with
+    | Some p => kw_tok "PIPES" :: tk_clause "OFFSET" (fun z => [num_tok z]) (pp_offset p) ++ tk_clause "LIMIT" (fun z => [num_tok z]) (pp_limit p)
+    | None => []
+    end.
+
+  (* BEFORE: the value is quoted twice, so the String token holds the quoted time text; `quote` is needed here *)
+  Variable quote : bytes -> bytes.
+  Definition tk_truncate (t : truncate) : list token :=
+    kw_tok "TRUNCATE" :: (if tr_dryrun t then [kw_tok "DRYRUN"] else []) ++ tk_osource (tr_source t) ++
+    tk_clause "MINSIZE" (fun n => [num_tok (as_int64 n)]) (tr_min t) ++
+    tk_clause "MAXSIZE" (fun n => [num_tok (as_int64 n)]) (tr_max t) ++
+    tk_clause "BEFORE" (fun b => [str_tok (quote (fmt_time b))]) (tr_before t).
+
+  Definition tk_lql (l : lql) : list token :=
+    match l with
+    | LNone => []
+    | LSelect s => tk_select s
+    | LDescribe d => tk_describe d
+    | LTruncate t => tk_truncate t
+    | LShow s => tk_show s
+    | LCreate p => kw_tok "CREATE" :: match p with Some p => tk_pipe p | None => [] end
+    | LDelete n => kw_tok "DELETE" :: match n with Some n => [kw_tok "PIPE"; Tok TIdent n] | None => [] end
+    end.
+End StmtTokens.
